@@ -167,6 +167,30 @@ pub fn measure_scanner(scanner: &scnr::Scanner) -> Result<BitSet, String> {
     Ok(set)
 }
 
+/// Like measure_scanner for a scanner with several single-character patterns with token types
+/// 0..k: the set of characters reported for each token type.
+pub fn measure_scanner_multi(scanner: &scnr::Scanner, k: usize) -> Result<Vec<BitSet>, String> {
+    let all = all_scalars();
+    let mut sets: Vec<BitSet> = (0..k).map(|_| BitSet::empty()).collect();
+    for m in scanner.find_iter(all) {
+        let c = all[m.start()..]
+            .chars()
+            .next()
+            .ok_or_else(|| "match beyond the input".to_string())?;
+        if m.end() - m.start() != c.len_utf8() {
+            return Err(format!(
+                "token {:?} is not exactly one character (starts at {:?})",
+                m, c
+            ));
+        }
+        if m.token_type() >= k {
+            return Err(format!("token {:?} has an unknown token type", m));
+        }
+        sets[m.token_type()].set(c);
+    }
+    Ok(sets)
+}
+
 pub fn named_alone_pattern(n: &Named) -> String {
     print_class_alone(&Class::Named(n.clone(), false))
 }
